@@ -379,8 +379,15 @@ def gen_atom(rng, nts, vars_, text_ok: bool) -> list:
 def gen_bound_and_search(rng, nts, text_ok: bool, legacy: bool) -> tuple[list, list]:
     s = gen_tree_search(rng, nts, rng.choice([0, 1, 1, 2]), text_ok)
     names = list(nts.keys()) if isinstance(nts, dict) else list(nts)
+    # a share of SHADOWING quantifiers: the bound non-terminal is a symbol the range search itself looks up
+    # (`forall <d> in <n>.<d>`, `all(.. for <d> in *<i>..<d>)`): the range must be computed before the first
+    # binding reaches `scope`, or later bases see the bound element (seeded change C07-1)
+    fin = final_nt(s)
+    shadow = fin is not None and s[0] in ("attr", "desc", "sel") and rng.random() < 0.3
     if legacy:
-        return ["nt", rng.choice(names + ["<c>", "<d>"])], s
+        return ["nt", fin if shadow else rng.choice(names + ["<c>", "<d>"])], s
+    if shadow:
+        return ["nt", fin], ["star", s]
     b = ["nt", rng.choice(names)] if rng.random() < 0.5 else ["var", rng.choice(VARS)]
     return b, ["star", s]
 
@@ -443,6 +450,20 @@ def with_lazy(c: list, z: bool) -> list:
             go(x[4])
     go(c)
     return c
+
+
+def shadowing_quantifiers(c: list) -> int:
+    """number of quantifiers whose bound non-terminal is the symbol their range search ends in"""
+    tag = c[0]
+    if tag in ("conj", "disj"):
+        return sum(shadowing_quantifiers(x) for x in c[2])
+    if tag == "impl":
+        return shadowing_quantifiers(c[1]) + shadowing_quantifiers(c[2])
+    if tag in ("all", "any"):
+        rng_s = c[3][1] if c[3][0] == "star" else c[3]
+        here = 1 if c[2][0] == "nt" and rng_s[0] in ("attr", "desc", "sel") and final_nt(rng_s) == c[2][1] else 0
+        return here + shadowing_quantifiers(c[4])
+    return 0
 
 
 def depth_of(c: list) -> int:
